@@ -5,6 +5,8 @@ import OvniModel.Lemmas.SortState
 import OvniModel.Lemmas.Breakdown
 import OvniModel.Lemmas.BreakdownSys
 import OvniModel.Lemmas.CoreBayOrder
+import OvniModel.Lemmas.CoreBayRaw
+import OvniModel.Lemmas.TaskHook
 
 /-!
 # C20 — breakdown view: the rows hold the sorted per-CPU breakdown values
@@ -415,19 +417,121 @@ theorem dirty_level_ordered_affinity_events {e e' : Ovni.Emu.Emu} {ti : Nat} {p 
     (Ovni.Emu.preAffinityRemote e ti p = .ok e' → Ovni.Emu.SimP Ovni.Emu.Src.isSys e e') :=
   ⟨Ovni.Emu.SimP.preAffinitySet, Ovni.Emu.SimP.preAffinityRemote⟩
 
+/-- **dirty_level_ordered** for the events that write raw model channels, derived
+    from the emulator's bay.  For the bay `emu_connect` builds and every emulator
+    step that writes sources of a class `P` containing neither the CPU's
+    `th_running` nor the idle channel `iidle` of model `k` of any thread: the CPU
+    track of `iidle` does not enter the dirty list at all (a track output enters
+    only when its select channel or one of its inputs was written,
+    `Bay.dirtyPhase_reached`), so no `idle` entry is ahead of an `ss` / `tt`
+    entry: `orderOk` holds for the CPU's three breakdown inputs, whatever the
+    order in which the handler wrote `ss` and `tt`. -/
+theorem dirty_level_ordered_raw {P : Ovni.Emu.Src → Prop} {e e' : Ovni.Emu.Emu} {b0 b : Ovni.Emu.Bay}
+    (hc : e.shape.connect = .ok b0) (hs : Ovni.Emu.Shaped e) (hi : Ovni.Emu.Inv b0 e b)
+    (hsim : Ovni.Emu.SimP P e e')
+    {c k itt iss iidle : Nat} {m : Ovni.Emu.ModelSpec} (hcl : c < e.cpus.length) (hk : e.specs[k]? = some m)
+    (h1 : itt < iidle) (h2 : iss < iidle) (h3 : iidle < m.nch) (hne : itt ≠ iss)
+    (hrun : ¬ P (.run c)) (hidle : ∀ g, ¬ P (.raw g k iidle)) :
+    ∃ b1 bP bF em, Ovni.Emu.Bay.Writes (e.shape.okP P) b b1 ∧ Ovni.Emu.Mirrors e' b1 ∧
+      b1.dirtyPhase b1.chans.length 0 = .ok bP ∧ b1.propagate = .ok (bF, em) ∧ Ovni.Emu.Inv b0 e'.flushAll bF ∧
+      e.shape.cpuOut c k iidle ∉ bP.dirty ∧
+      orderOk (dedup (srcOrder (e.shape.cpuOut c k itt) (e.shape.cpuOut c k iss) (e.shape.cpuOut c k iidle)
+        bP.dirty)) = true := by
+  obtain ⟨b1, bP, bF, em, hw, hm, hph, hp, hinv, wfP, hmx, hdsub, hreach⟩ := Ovni.Emu.Inv.any_event hc hs hi hsim
+  have hb := Ovni.Emu.Shape.connect_built hc
+  have hk' : e.shape.specs[k]? = some m := hk
+  have hcl' : c < e.shape.nC := hcl
+  have hj : ∀ i, i < m.nch → Ovni.Emu.Job.cpu c k i ∈ e.shape.jobs :=
+    fun i hi => (e.shape.mem_jobs_cpu c k i).mpr ⟨hcl', m, hk', hi⟩
+  have hti : e.shape.cpuOut c k itt ≠ e.shape.cpuOut c k iidle :=
+    Nat.ne_of_lt (e.shape.cpuOut_lt (hj itt (by omega)) (hj iidle h3) h1)
+  have hsi : e.shape.cpuOut c k iss ≠ e.shape.cpuOut c k iidle :=
+    Nat.ne_of_lt (e.shape.cpuOut_lt (hj iss (by omega)) (hj iidle h3) h2)
+  have hts : e.shape.cpuOut c k itt ≠ e.shape.cpuOut c k iss := by
+    rcases Nat.lt_or_gt_of_ne hne with h | h
+    · exact Nat.ne_of_lt (e.shape.cpuOut_lt (hj itt (by omega)) (hj iss (by omega)) h)
+    · exact Nat.ne_of_gt (e.shape.cpuOut_lt (hj iss (by omega)) (hj itt (by omega)) h)
+  have hnot : e.shape.cpuOut c k iidle ∉ bP.dirty := fun hx =>
+    hb.cpuOut_not_reached hmx hdsub hcl' hk' h3 hrun hidle (hreach _ hx)
+  refine ⟨b1, bP, bF, em, hw, hm, hph, hp, hinv, hnot, ?_⟩
+  rw [dedup_of_nodup _ (srcOrder_nodup _ _ _ hts hti hsi _ wfP.dirtyNodup)]
+  exact orderOk_of_positions _ _ _ hts hti hsi _ wfP.dirtyNodup
+    (fun _ hy => absurd hy hnot) (fun _ hy => absurd hy hnot)
+
+/-- The task events of nOS-V and Nanos6 (`VTx VTe VTp VTr`, `6Tx …`, and the
+    creation events, which write nothing) are such steps: the task hook
+    (`Emu/TaskHook.lean`: `update_task` = the task / body rules of `Emu/Task.lean`
+    plus the channel writes in the order of the C code — subsystem push / pop
+    first, then body id, task id, type, app id, rank) writes only task channels
+    of the event's thread. -/
+theorem dirty_level_ordered_task_events {tm : Ovni.Task.Model} {P : Ovni.Task.ProcInfo} {ε : Ovni.Task.Emu}
+    {ev : Ovni.Task.Ev} {e e' : Ovni.Emu.Emu} {ti a b : Nat} {p : List Nat}
+    (h : Ovni.Emu.taskHook tm P ε ev e ti a b p = .ok e') :
+    Ovni.Emu.SimP (Ovni.Emu.rawOf ti (Ovni.Emu.taskIdx tm).all) e e' :=
+  Ovni.Emu.taskHook_simP h
+
+/-- The idle channel is not a task channel: nOS-V `CH_IDLE = 6`, Nanos6 `CH_IDLE = 5`. -/
+theorem idle_not_task_channel :
+    6 ∉ (Ovni.Emu.taskIdx .nosv).all ∧ 5 ∉ (Ovni.Emu.taskIdx .nanos6).all := by decide
+
+/-- **dirty_level_ordered for the task events, no order hypothesis.**  For every
+    task event accepted by the task hook, every CPU and every choice of
+    `itt`, `iss` below an idle channel `iidle` that is not a task channel (nOS-V:
+    2, 4, 6; Nanos6: 1, 2, 5 — `idle_not_task_channel`), `orderOk` holds for the
+    CPU's breakdown inputs after the dirty phase. -/
+theorem dirty_level_ordered_task {tm : Ovni.Task.Model} {P : Ovni.Task.ProcInfo} {ε : Ovni.Task.Emu}
+    {ev : Ovni.Task.Ev} {e e' : Ovni.Emu.Emu} {b0 b : Ovni.Emu.Bay} {ti a b' : Nat} {p : List Nat}
+    (hc : e.shape.connect = .ok b0) (hs : Ovni.Emu.Shaped e) (hi : Ovni.Emu.Inv b0 e b)
+    (h : Ovni.Emu.taskHook tm P ε ev e ti a b' p = .ok e')
+    {c k itt iss iidle : Nat} {m : Ovni.Emu.ModelSpec} (hcl : c < e.cpus.length) (hk : e.specs[k]? = some m)
+    (h1 : itt < iidle) (h2 : iss < iidle) (h3 : iidle < m.nch) (hne : itt ≠ iss)
+    (hidle : iidle ∉ (Ovni.Emu.taskIdx tm).all) :
+    ∃ b1 bP bF em, Ovni.Emu.Bay.Writes (· < e.shape.L) b b1 ∧ Ovni.Emu.Mirrors e' b1 ∧
+      b1.dirtyPhase b1.chans.length 0 = .ok bP ∧ b1.propagate = .ok (bF, em) ∧ Ovni.Emu.Inv b0 e'.flushAll bF ∧
+      orderOk (dedup (srcOrder (e.shape.cpuOut c k itt) (e.shape.cpuOut c k iss) (e.shape.cpuOut c k iidle)
+        bP.dirty)) = true := by
+  obtain ⟨b1, bP, bF, em, hw, hm, hph, hp, hinv, _, ho⟩ :=
+    dirty_level_ordered_raw hc hs hi (Ovni.Emu.taskHook_simP h) hcl hk h1 h2 h3 hne
+      (by rintro ⟨_, _, hx, _⟩; cases hx)
+      (by rintro g ⟨_, _, hx, hmem⟩; cases hx; exact hidle hmem)
+  exact ⟨b1, bP, bF, em, hw.mono (fun _ h => Ovni.Emu.Shape.okP_lt h), hm, hph, hp, hinv, ho⟩
+
+/-- **dirty_level_ordered (per CPU) without the order hypothesis**, for what
+    the emulator produces: if `sets` are the writes the CPU's breakdown sees when
+    the dirty list after a thread-state / affinity event (`dirty_level_ordered_sys`)
+    or a task event (`dirty_level_ordered_task`) is walked, the conclusion of
+    `dirty_level_ordered_partial` holds. -/
+theorem dirty_level_ordered_emu (k : Consts) (c : Cpu) (sets : List (Src × Value)) (hq : Quiescent k c)
+    (tt ss idle : Nat) (d : List Nat) (hd : sets.map (·.1) = srcOrder tt ss idle d)
+    (ho : orderOk (dedup (srcOrder tt ss idle d)) = true) :
+    let c' := step k c sets
+    Quiescent k c' ∧ c'.seen = c'.tri ∧ c'.tri = triSpec k c'.tr c'.idle :=
+  dirty_level_ordered_partial k c sets hq (hd ▸ ho)
+
 -- OPEN (what is left of `dirty_level_ordered` for the whole emulator).
 -- Proved now: for every thread-state / affinity event the three CPU channels enter the
 -- dirty list in the order `task_type`, `subsystem`, `idle`, all of them before any is
 -- processed, as a consequence of `model_cpu_connect` calling `mux_init` in channel-index
 -- order (`dirty_level_ordered_sys`; bay-level: `Bay.dirtyPhase_selectOnly`,
--- `Shape.Built.cpu_order`).  Still a hypothesis (`orderOk`) for the task events
--- `VTx` / `VTe` / `VTp` / `VTr` (and the Nanos6 analogues): there the CPU channels enter
--- through `cb_input` in the order in which the task layer writes the thread's raw
--- channels (`ss` before `tt`); the task layer (`Emu/Task.lean`) is a hook of the
--- reference emulator with its own state, not connected to the bay model.  Also not
--- modelled: the breakdown muxes themselves (chained muxes on the CPU track outputs) are
--- not part of `bayOf`; `step` is their per-CPU model.  Those parts stay exercised
--- against the real `connect_cpu` by the harness and against `ovniemu -b` by the e2e oracle.
+-- `Shape.Built.cpu_order`).  For the task events `VTx` / `VTe` / `VTp` / `VTr` (and the
+-- Nanos6 analogues) `orderOk` is no longer a hypothesis either (`dirty_level_ordered_task`):
+-- the task layer is now a hook of the reference emulator connected to the bay model
+-- (`Emu/TaskHook.lean`; `update_task` writes `ss` first, then body id, task id, type, app
+-- id, rank — never the idle channel), a CPU track enters the dirty list only when its
+-- select channel or one of its inputs was written (`Bay.dirtyPhase_reached`), so the
+-- `idle` track is not on the list at all and `orderOk` — "no `idle` entry ahead of an
+-- `ss` / `tt` entry" — holds whatever the relative order of `ss` and `tt`.  The code's
+-- order (`ss` before `tt`) does not differ from what `orderOk` demands: `orderOk` does not
+-- constrain `ss` against `tt` (`example` below: both `[ss, tt]` and `[tt, ss]` pass).
+-- `dirty_level_ordered_raw` covers every other step that leaves `th_running` and the idle
+-- channels alone.  Still open: the table events that DO write the idle channel (nOS-V
+-- `VPp/VPr/VPa`: a single raw channel, dirty list `[idle]`, trivially `orderOk` but not
+-- derived here because `SimP.tableEvent` does not name the written channel); the
+-- positions of `ss` / `tt` on the list after a task event (not needed by `orderOk`).
+-- Also not modelled: the breakdown muxes themselves (chained muxes on the CPU track
+-- outputs) are not part of `bayOf`; `step` is their per-CPU model.  Those parts stay
+-- exercised against the real `connect_cpu` by the harness and against `ovniemu -b` by the
+-- e2e oracle.
 
 /-- Even with a bad order the muxes themselves end up right; only what the
     sort module saw can be out of date. -/
@@ -570,5 +674,63 @@ def exDirty : List Nat :=
 
 example : srcOrder (exEmu.shape.cpuOut 0 1 2) (exEmu.shape.cpuOut 0 1 4) (exEmu.shape.cpuOut 0 1 6) exDirty
     = [.tt, .ss, .idle] ∧ exDirty.length = 18 := by decide
+
+/-! ### The task events
+
+nOS-V process with app id 1 and no rank; task type 1 and task 1 created
+(`VYc`, `VTc`); the event is `VTx` of task 1 on thread 0. -/
+
+def exTaskE : Ovni.Task.Emu :=
+  match Ovni.Task.Emu.run .nosv ⟨1, -1⟩ Ovni.Task.Emu.init [.typeCreate 1 7 true, .taskCreate false 1 1] with
+  | .ok x => x
+  | .error _ => Ovni.Task.Emu.init
+
+theorem exVTx_accepted :
+    (match Ovni.Emu.taskHook .nosv ⟨1, -1⟩ exTaskE (.task 0 .x 1 0) exEmu 0 86 84 [] with
+      | .ok _ => true | .error _ => false) = true := by
+  decide
+
+/-- All hypotheses of `dirty_level_ordered_task` hold (state from `Inv.init`,
+    event `VTx`), hence `orderOk` for CPU 0's breakdown inputs — no order
+    hypothesis. -/
+example : ∃ (bI : Ovni.Emu.Bay) (e' : Ovni.Emu.Emu) (bP : Ovni.Emu.Bay), Ovni.Emu.Inv exBay0 exEmu bI ∧
+    Ovni.Emu.taskHook .nosv ⟨1, -1⟩ exTaskE (.task 0 .x 1 0) exEmu 0 86 84 [] = .ok e' ∧
+    orderOk (dedup (srcOrder (exEmu.shape.cpuOut 0 1 2) (exEmu.shape.cpuOut 0 1 4) (exEmu.shape.cpuOut 0 1 6)
+      bP.dirty)) = true := by
+  obtain ⟨hs, _, bI, _, _, _, hi⟩ := Ovni.Emu.Inv.init _ _ _ _ _ exBay0_connect (by decide) (by decide)
+    (by rw [List.append_nil]; exact Ovni.Emu.initSingle_allSpecs _)
+  cases h : Ovni.Emu.taskHook .nosv ⟨1, -1⟩ exTaskE (.task 0 .x 1 0) exEmu 0 86 84 [] with
+  | error x => have := exVTx_accepted; rw [h] at this; cases this
+  | ok e' =>
+    obtain ⟨_, bP, _, _, _, _, _, _, _, hord⟩ :=
+      dirty_level_ordered_task (c := 0) (k := 1) (itt := 2) (iss := 4) (iidle := 6) (m := Ovni.Emu.specNosv)
+        exBay0_connect hs hi h (by decide) (by rfl) (by decide) (by decide) (by decide) (by decide)
+        idle_not_task_channel.1
+    exact ⟨bI, e', bP, hi, rfl, hord⟩
+
+/-- The same computed, in a state where the CPU tracks are live: `emu_connect`,
+    `OHx` of thread 0 on CPU 0 (three writes, `bay_propagate`), then the writes of
+    `VTx` in the order of `update_task` — subsystem push, body id, task id, type,
+    app id — and the dirty phase.  The CPU's breakdown inputs enter the dirty list
+    as subsystem, task type: the code's order is `ss` before `tt`, the idle track
+    is absent, and `orderOk` accepts it (it accepts `[tt, ss]` as well). -/
+def exDirtyT : List Nat :=
+  let σ := exEmu.shape
+  let b1 := (σ.addrs.filter σ.hasInit).foldl
+    (fun b s => unwrapB b (b.write (σ.idx s) (σ.initOp s))) exBay0
+  let bI := (unwrapB (b1, []) b1.propagate).1
+  let w1 := unwrapB bI (bI.chanSet (σ.idx (.st 0)) (.int 1))
+  let w2 := unwrapB w1 (w1.chanSet (σ.idx (.run 0)) (.int 0))
+  let w3 := unwrapB w2 (w2.chanSet (σ.idx (.act 0)) (.int 0))
+  let bX := (unwrapB (w3, []) w3.propagate).1
+  let t1 := unwrapB bX (bX.chanPush (σ.idx (.raw 0 1 4)) (.int 11))
+  let t2 := unwrapB t1 (t1.chanSet (σ.idx (.raw 0 1 0)) (.int 1))
+  let t3 := unwrapB t2 (t2.chanSet (σ.idx (.raw 0 1 1)) (.int 1))
+  let t4 := unwrapB t3 (t3.chanSet (σ.idx (.raw 0 1 2)) (.int 1673))
+  let t5 := unwrapB t4 (t4.chanSet (σ.idx (.raw 0 1 3)) (.int 1))
+  (unwrapB t5 (t5.dirtyPhase t5.chans.length 0)).dirty
+
+example : srcOrder (exEmu.shape.cpuOut 0 1 2) (exEmu.shape.cpuOut 0 1 4) (exEmu.shape.cpuOut 0 1 6) exDirtyT
+    = [.ss, .tt] ∧ orderOk (dedup [Src.ss, Src.tt]) = true ∧ orderOk (dedup [Src.tt, Src.ss]) = true := by decide
 
 end Ovni.Props.C20
